@@ -332,11 +332,11 @@ type c14World struct {
 func (w *c14World) idOf(state string) string {
 	switch state {
 	case "fresh":
-		return c14IDFresh
+		return w.F.ID
 	case "stopped":
-		return c14IDHalt
+		return w.S.ID
 	}
-	return common.DefaultBeaconID
+	return w.R.ID
 }
 
 func c14Version() *drand.NodeVersion { return common.GetAppVersion().ToProto() }
@@ -894,6 +894,7 @@ type c14Env struct {
 	reqLog  *os.File
 	seq     int
 	wedges  map[string]int
+	panicSeen map[string]bool
 	recent  []string
 	peerCtl chan struct{}
 	peerWG  sync.WaitGroup
@@ -957,19 +958,21 @@ func (e *c14Env) honestStep() {
 	ctx, cancel := context.WithTimeout(context.Background(), 3*time.Second)
 	defer cancel()
 	md := &drand.Metadata{NodeVersion: c14Version(), BeaconID: common.DefaultBeaconID}
-	st, err := drand.NewProtocolClient(e.tgt.conn).Status(ctx, &drand.StatusRequest{Metadata: md})
-	if err != nil || st.ChainStore == nil {
-		return
-	}
-	next := st.ChainStore.LastStored + 1
-	if next > e.w.curRound() {
-		return
-	}
-	sig, err := e.w.R.vfnPartial(1, next, nil)
+	// the partial cache is keyed by (round, previous signature) also for unchained schemes: send what a
+	// real member sends, i.e. the signature of the node's last beacon as previous_signature
+	last, err := drand.NewPublicClient(e.tgt.conn).PublicRand(ctx, &drand.PublicRandRequest{Metadata: md})
 	if err != nil {
 		return
 	}
-	_, _ = drand.NewProtocolClient(e.tgt.conn).PartialBeacon(ctx, &drand.PartialBeaconPacket{Round: next, PartialSig: sig, Metadata: md})
+	next := last.Round + 1
+	if next > e.w.curRound() {
+		return
+	}
+	sig, err := e.w.R.vfnPartial(1, next, last.Signature)
+	if err != nil {
+		return
+	}
+	_, _ = drand.NewProtocolClient(e.tgt.conn).PartialBeacon(ctx, &drand.PartialBeaconPacket{Round: next, PreviousSignature: last.Signature, PartialSig: sig, Metadata: md})
 	e.run.Count("honest_partials", 1)
 }
 
@@ -1063,7 +1066,15 @@ func (e *c14Env) send(r *c14Req, idx int) bool {
 	el := time.Since(t0)
 	if err != nil {
 		e.run.Count("answers.error", 1)
-		e.run.Seen("error_kinds", c14ErrKind(err))
+		k := c14ErrKind(err)
+		e.run.Seen("error_kinds", k)
+		if strings.Contains(k, "runtime error") || strings.Contains(k, "panic") || strings.Contains(k, "nil pointer") {
+			e.run.Count("contained_panics", 1)
+			if !e.panicSeen[r.Endpoint+"/"+r.Class] {
+				e.panicSeen[r.Endpoint+"/"+r.Class] = true
+				e.run.Note(fmt.Sprintf("contained panic: %s/%s (%s): %s", r.Endpoint, r.Class, r.State, k))
+			}
+		}
 	} else {
 		e.run.Count("answers.ok", 1)
 	}
@@ -1118,7 +1129,11 @@ func (e *c14Env) probe(r *c14Req, idx int, name string) bool {
 
 func TestVF_C14(t *testing.T) {
 	run := vfNewRun("C14", "daemonnet")
-	defer run.Finish()
+	var cleanups []func()
+	defer func() {
+		run.Finish()
+		vfnRaceExit(t, cleanups...)
+	}()
 	seed := vfSeed()
 	rng := vfNewRng(vfCaseSeed(seed, "C14", 0))
 	dir := t.TempDir()
@@ -1126,6 +1141,11 @@ func TestVF_C14(t *testing.T) {
 		dir = k
 		_ = os.MkdirAll(dir, 0o755)
 	}
+	cleanups = append(cleanups, func() {
+		if os.Getenv("VF_KEEP_DIR") == "" {
+			_ = os.RemoveAll(dir)
+		}
+	})
 	ports := vfnFreePorts()
 	now := time.Now().Unix()
 	w := &c14World{ports: ports, unknownH: rng.Bytes(32)}
@@ -1162,7 +1182,7 @@ func TestVF_C14(t *testing.T) {
 		t.Fatal(err)
 	}
 	defer reqLog.Close()
-	e := &c14Env{t: t, run: run, w: w, dir: dir, cfgPath: cfgPath, probes: w.probes(), reqLog: reqLog, wedges: map[string]int{}}
+	e := &c14Env{t: t, run: run, w: w, dir: dir, cfgPath: cfgPath, probes: w.probes(), reqLog: reqLog, wedges: map[string]int{}, panicSeen: map[string]bool{}}
 	if err := e.start(); err != nil {
 		run.Inconclusive("child did not start: " + err.Error())
 		return
